@@ -96,7 +96,7 @@ let code_of_ty = function Value -> "V" | Tomb -> "T" | WeakTomb -> "W" | Ind -> 
 
 let show_entry_opt = function
   | None -> "."
-  | Some e -> Printf.sprintf "%s@%s:%s" (hex_of_bytes e.ukey) (string_of_n e.seq) (hex_of_bytes e.val0)
+  | Some e -> Printf.sprintf "%s@%s:%s" (hex_of_bytes e.ukey) (string_of_n e.seq0) (hex_of_bytes e.val0)
 
 (* deque consumption of a list *)
 let deque_run (l : 'a list) (pulls : string) : 'a option list =
@@ -126,10 +126,10 @@ let check_blobs (l : superversion) =
     (* referenced pointers of this version *)
     let refs = Hashtbl.create 64 in
     List.iter (fun t -> List.iter (fun e -> match e.ty with
-        | Ind -> (match Hashtbl.find_opt pointers (hex_of_bytes e.ukey, string_of_n e.seq) with
+        | Ind -> (match Hashtbl.find_opt pointers (hex_of_bytes e.ukey, string_of_n e.seq0) with
             | Some (f, o, d, z) ->
               if not (List.exists (fun (id, _, _, _) -> id = f) files) then
-                fail "dangling-pointer" (Printf.sprintf "key=%s seq=%s points into blob file %d which is not in version %s" (hex_of_bytes e.ukey) (string_of_n e.seq) f (string_of_n l.ver.vid));
+                fail "dangling-pointer" (Printf.sprintf "key=%s seq=%s points into blob file %d which is not in version %s" (hex_of_bytes e.ukey) (string_of_n e.seq0) f (string_of_n l.ver.vid));
               Hashtbl.replace refs (f, o) (d, z)
             | None -> ())
         | _ -> ()) t.ents) (all_tables l.ver);
@@ -368,6 +368,48 @@ let check_step_model ~(wm : n) (pre : superversion) (post : superversion) =
     end
   end
 
+(* ---------- the Leveled strategy (Model/Leveled.v) ----------
+   The model replaces the floating-point level scores by oracles; [leveled_choices] lists what
+   the strategy can return for every oracle value.  The choice the real crate made (read off
+   the dumps before / after a `leveled <l0> <target> <wm>` operation: tables that disappeared +
+   level of the new ones = Merge; tables that changed level = Move; nothing = DoNothing) must be
+   one of them.  A mismatch is model drift (the theorems C01_leveled_* then speak about a strategy
+   the crate no longer implements); safety of the real choice itself is checked independently on
+   every step by merge_choice_ok / move_choice_ok above. *)
+let check_leveled_choice (pre : superversion) (post : superversion) =
+  match String.split_on_char ' ' !op_text with
+  | "leveled" :: l0 :: target :: _ ->
+    let size (t : table) = (try snd (Hashtbl.find table_extra (int_of_n t.tid)) with Not_found -> N0) in
+    let choices = leveled_choices size (n_of_string l0) (n_of_string target) pre.ver [] in
+    let norm ids = List.sort compare (List.map int_of_n ids) in
+    let rec int_of_nat = function O -> 0 | S m -> 1 + int_of_nat m in
+    let show = function
+      | LDoNothing -> "nothing"
+      | LMove (ids, d) -> Printf.sprintf "move[%s]->L%d" (String.concat "," (List.map string_of_int (norm ids))) (int_of_nat d)
+      | LMerge (ids, d) -> Printf.sprintf "merge[%s]->L%d" (String.concat "," (List.map string_of_int (norm ids))) (int_of_nat d) in
+    let pre_ids = table_ids pre and post_ids = table_ids post in
+    let removed = List.sort compare (List.filter (fun i -> not (List.mem i post_ids)) pre_ids) in
+    let added = List.filter (fun i -> not (List.mem i pre_ids)) post_ids in
+    let real =
+      if removed <> [] then
+        (match added with
+         | a :: _ -> Some (Printf.sprintf "merge[%s]->L%d" (String.concat "," (List.map string_of_int removed)) (level_of_table post a))
+         | [] -> None (* everything was evicted: the destination cannot be read off the dump *))
+      else begin
+        let moved = List.sort compare (List.filter (fun i -> level_of_table pre i <> level_of_table post i) pre_ids) in
+        if moved = [] then Some "nothing"
+        else Some (Printf.sprintf "move[%s]->L%d" (String.concat "," (List.map string_of_int moved)) (level_of_table post (List.hd moved)))
+      end in
+    (match real with
+     | None -> bump "leveled_choice_unreadable"
+     | Some r ->
+       let shown = List.sort_uniq compare (List.map show choices) in
+       let merge_prefix = (match real with Some r' when removed <> [] && added = [] -> r' | _ -> r) in
+       ignore merge_prefix;
+       if List.mem r shown then bump "leveled_choice_agree"
+       else drift "leveled-choice" (Printf.sprintf "impl=%s model_can=[%s]" r (String.concat " " shown)))
+  | _ -> ()
+
 (* ---------- operations that remove data by design: drop_range, clear, fifo ----------
    The ordered-map history is adjusted exactly as the property allows and nothing more:
    clear: every earlier write dies for snapshots above the clear's version seqno;
@@ -465,13 +507,13 @@ let apply_filter_calls (pre : superversion) (post : superversion) =
     let post_ids = List.map (fun t -> int_of_n t.tid) (all_tables post.ver) in
     let inputs = List.filter (fun t -> not (List.mem (int_of_n t.tid) post_ids)) (all_tables pre.ver) in
     let in_inputs (e : entry) =
-      List.exists (fun t -> List.exists (fun e' -> key_eqb e'.ukey e.ukey && N.eqb e'.seq e.seq) t.ents) inputs in
+      List.exists (fun t -> List.exists (fun e' -> key_eqb e'.ukey e.ukey && N.eqb e'.seq0 e.seq0) t.ents) inputs in
     List.iter (fun (kh, vh, verdict) ->
         let k = bytes_of_hex kh and v = bytes_of_hex vh in
         let cands = List.filter (fun h -> h.dead = None && (match h.born with None -> true | Some b -> not (N.eqb b g)) && key_eqb h.e.ukey k
                                           && not (is_tomb h.e) && list_N_eqb h.e.val0 v && not (List.memq h !processed)
                                           && (inputs = [] || in_inputs h.e)) !hist in
-        let best = List.fold_left (fun acc h -> match acc with None -> Some h | Some b -> if N.ltb b.e.seq h.e.seq then Some h else acc) None cands in
+        let best = List.fold_left (fun acc h -> match acc with None -> Some h | Some b -> if N.ltb b.e.seq0 h.e.seq0 then Some h else acc) None cands in
         match best with
         | None -> fail "filter-unknown-item" (Printf.sprintf "filter was shown key=%s value=%s which matches no live write" kh vh)
         | Some h ->
@@ -506,14 +548,14 @@ let () =
       let t = String.split_on_char ' ' lines.(!i) in
       (match t with
        | [ "e"; k; s; ty; v ] ->
-         l := { ukey = bytes_of_hex k; seq = n_of_string s; ty = ty_of_code ty; val0 = bytes_of_hex v } :: !l
+         l := { ukey = bytes_of_hex k; seq0 = n_of_string s; ty = ty_of_code ty; val0 = bytes_of_hex v } :: !l
        | [ "e"; k; s; "I"; v; f; o; d; z ] ->
          (* blob indirection: the entry carries the RESOLVED value; the pointer is kept aside *)
          let bad = String.length v >= 3 && (String.sub v 0 3 = "UNR" || String.sub v 0 3 = "ERR" || String.sub v 0 3 = "NOB") in
          if bad then fail "resolve" (Printf.sprintf "key=%s seq=%s %s" k s v);
          Hashtbl.replace pointers (k, s) (int_of_string f, int_of_string o, int_of_string d, int_of_string z);
          Hashtbl.replace frames_seen (int_of_string f, int_of_string o) (int_of_string d, int_of_string z);
-         l := { ukey = bytes_of_hex k; seq = n_of_string s; ty = Ind; val0 = (if bad then [] else bytes_of_hex v) } :: !l
+         l := { ukey = bytes_of_hex k; seq0 = n_of_string s; ty = Ind; val0 = (if bad then [] else bytes_of_hex v) } :: !l
        | _ -> failwith ("bad entry line: " ^ lines.(!i)));
       incr i
     done;
@@ -564,7 +606,7 @@ let () =
        pending_f := []
      | [ "W"; k; s; ty; v ] ->
        bump "writes";
-       hist := { e = { ukey = bytes_of_hex k; seq = n_of_string s; ty = ty_of_code ty; val0 = bytes_of_hex v }; born = None; dead = None } :: !hist
+       hist := { e = { ukey = bytes_of_hex k; seq0 = n_of_string s; ty = ty_of_code ty; val0 = bytes_of_hex v }; born = None; dead = None } :: !hist
      | [ "IW"; k; ty; v ] -> pending_ingest := (bytes_of_hex k, ty_of_code ty, bytes_of_hex v) :: !pending_ingest
      | "STATC" :: kvs -> List.iter (fun kv -> match String.split_on_char '=' kv with
          | [ k; v ] -> bump ~by:(int_of_string v) k | _ -> ()) kvs
@@ -618,7 +660,7 @@ let () =
               let items = ref [] in
               for _ = 1 to int_of_string cnt do
                 (match String.split_on_char ' ' lines.(!i) with
-                 | [ "be"; k; sq'; ty ] -> items := { ukey = bytes_of_hex k; seq = n_of_string sq'; ty = ty_of_code ty; val0 = [] } :: !items
+                 | [ "be"; k; sq'; ty ] -> items := { ukey = bytes_of_hex k; seq0 = n_of_string sq'; ty = ty_of_code ty; val0 = [] } :: !items
                  | _ -> failwith ("bad block entry line: " ^ lines.(!i)));
                 incr i
               done;
@@ -639,7 +681,7 @@ let () =
             else bump "block_index_checked";
             let flat = List.concat blocks in
             if List.length flat <> List.length tb.ents
-            || not (List.for_all2 (fun (a : entry) (b : entry) -> key_eqb a.ukey b.ukey && N.eqb (N.add a.seq tb.gseq) b.seq && a.ty = b.ty) flat tb.ents) then
+            || not (List.for_all2 (fun (a : entry) (b : entry) -> key_eqb a.ukey b.ukey && N.eqb (N.add a.seq0 tb.gseq) b.seq0 && a.ty = b.ty) flat tb.ents) then
               fail "block-content" (Printf.sprintf "table %s: the items of its data blocks (+ global seqno) are not the items its iterator returns" tid);
             Hashtbl.replace btables tid_i bt)
        end
@@ -649,7 +691,7 @@ let () =
         | Some bt ->
           bump "table_gets";
           let m = btable_get all_true bt (bytes_of_hex k) (n_of_string sq) in
-          let ms = (match m with None -> "." | Some e -> Printf.sprintf "%s:%s" (string_of_n e.seq) (code_of_ty e.ty)) in
+          let ms = (match m with None -> "." | Some e -> Printf.sprintf "%s:%s" (string_of_n e.seq0) (code_of_ty e.ty)) in
           if ms <> r then fail "table-get" (Printf.sprintf "table=%s key=%s S=%s crate=%s model=%s" tid k sq r ms)
           else bump "table_gets_agree")
      | "D" :: cnt :: kvs ->
@@ -683,7 +725,7 @@ let () =
             else begin
               let g = post.sv_seq in
               List.iter (fun (k, ty, v) ->
-                  hist := { e = { ukey = k; seq = g; ty; val0 = v }; born = None; dead = None } :: !hist) !pending_ingest;
+                  hist := { e = { ukey = k; seq0 = g; ty; val0 = v }; born = None; dead = None } :: !hist) !pending_ingest;
               bump "ingests"
             end
           | _ -> ());
@@ -695,6 +737,7 @@ let () =
        (match latest !cur, latest svs with
         | Some pre, Some post when !op_idx >= 0 ->
           (try check_step_model ~wm:!wm pre post with Not_found -> ());
+          (try check_leveled_choice pre post with Not_found -> ());
           apply_destructive_op pre post;
           apply_filter_calls pre post
         | _ -> ());
@@ -740,9 +783,9 @@ let () =
           superversion the snapshot resolved to, i.e. it was inserted (by a writer that had
           drawn its seqno earlier) into a memtable only newer superversions reference *)
        let late = (match !last_rv, spec_get (h_at s') k' s' with
-           | Some (rs, rsv), Some e when N.eqb rs s' -> N.ltb rsv e.seq
+           | Some (rs, rsv), Some e when N.eqb rs s' -> N.ltb rsv e.seq0
            | Some (rs, rsv), None when N.eqb rs s' ->
-             (match newest k' s' (h_at s') with Some e -> N.ltb rsv e.seq | None -> false)
+             (match newest k' s' (h_at s') with Some e -> N.ltb rsv e.seq0 | None -> false)
            | _ -> false) in
        if expect <> res then fail ~snap:is_snap (if late then "latewrite-get" else "oracle-get") (Printf.sprintf "key=%s S=%s impl=%s spec=%s" k s res expect);
        if not (late && expect <> res) then
@@ -793,7 +836,7 @@ let () =
           if m_s <> results then drift "model-prefix" (Printf.sprintf "%s impl=[%s] model=[%s]" p (String.concat " " results) (String.concat " " m_s))
         | _ -> ());
        let late_scan = (match !last_rv with
-           | Some (rs, rsv) when N.eqb rs s' -> List.exists (fun e -> N.ltb rsv e.seq && N.ltb e.seq s') (h_at s')
+           | Some (rs, rsv) when N.eqb rs s' -> List.exists (fun e -> N.ltb rsv e.seq0 && N.ltb e.seq0 s') (h_at s')
            | _ -> false) in
        if want_s <> results && late_scan then
          fail ~snap:is_snap ("latewrite-" ^ kind) (Printf.sprintf "S=%s (a write above the resolved superversion's seqno exists below the snapshot)" s)
